@@ -208,6 +208,8 @@ fn base_alphabet() -> Vec<Op> {
         Op::Split { sel: Sel::Newest },
         Op::Typed { op: TypedOp::SizedU64, try_: true },
         Op::Typed { op: TypedOp::SliceArr3(3), try_: false },
+        // the closure of alloc_try_with allocates through the same arena (into another chunk for small chunks) and fails
+        Op::TryWith { mutable: false, ok: false, inner: Some((700, 8)), try_: true },
         Op::Prep { size: 8, align: 8, commit: Commit::Half, rev: false },
         Op::Prep { size: 6, align: 2, commit: Commit::Full, rev: true },
         Op::PrepSlice { elem: 8, min_cap: 2, commit: Commit::Full, rev: false, try_: true },
@@ -285,6 +287,7 @@ fn is_core(o: &Op) -> bool {
         Op::Enter(Region::Scoped) | Op::Enter(Region::ByValue) | Op::Enter(Region::Aligned(1)) | Op::Enter(Region::Claim) | Op::Enter(Region::Guard) => true,
         Op::Exit | Op::ExitUnwind | Op::Reset => true,
         Op::TryWith { mutable: true, ok: false, .. } => true,
+        Op::TryWith { mutable: false, ok: false, inner: Some(_), .. } => true,
         _ => false,
     }
 }
@@ -364,6 +367,7 @@ pub fn spaces_mode<'a>(prop: &'a str, mode: Mode, deadline: Instant, threads: us
                 Op::Enter(Region::Claim),
                 Op::Exit,
                 Op::TryWith { mutable: false, ok: true, inner: Some((3, 1)), try_: false },
+                Op::TryWith { mutable: false, ok: false, inner: Some((700, 8)), try_: true },
             ];
             let rule = "every enabled history over the alphabet up to the depth bound, per configuration x handle kind x substrate (quick: the full alphabet to depth 3 and its core subset to depth 4; thorough: full alphabet to depth 4/5); non-trivial = the history performed a realloc (in place or moved), switched chunks, or had >= 2 non-empty live blocks";
             let ps = params(&[Handle::Direct, Handle::WoShrink, Handle::WoShrinkWoDealloc, Handle::WoDealloc, Handle::RefMut], &[Ctor::TryNew], &[z, og]);
@@ -398,6 +402,9 @@ pub fn spaces_mode<'a>(prop: &'a str, mode: Mode, deadline: Instant, threads: us
                 al(16, 16),
                 al(24, 8),
                 al(6, 2),
+                // sizes that are not multiples of their own alignment
+                al(4, 16),
+                al(40, 32),
                 al(0, 1),
                 Op::AllocRem { extra: 1, align: 1 },
                 Op::Typed { op: TypedOp::SliceU64(2), try_: true },
